@@ -3,11 +3,12 @@ from checks import syntaxtl2_gen as G
 
 MODULES = ["TLVerif.Props.C20"]
 THEOREMS = ["TLVerif.Props.C20." + t for t in [
-    "lexer_total_recombines", "lexer_tokens_good", "parse_total", "parse_never_panics", "parse_error_pos_in_text",
+    "lexer_total_recombines", "lexer_tokens_good", "parse_total", "parse_never_panics", "parse_error_pos_in_text", "parse_error_columns",
     "error_print_total", "parse_error_print_not_corrupted", "panic_sites_modelled", "iterator_panic_sites_modelled"]]
 SOURCES = ["TLVerif.Syntaxtl2.Basic", "TLVerif.Syntaxtl2.Lexer", "TLVerif.Syntaxtl2.Text", "TLVerif.Syntaxtl2.Ast",
            "TLVerif.Syntaxtl2.Parser", "TLVerif.Syntaxtl2.ErrorPrint", "TLVerif.Syntaxtl2.Driver",
-           "TLVerif.Syntaxtl2.LexerLemmas", "TLVerif.Syntaxtl2.ParserLemmas", "TLVerif.Syntaxtl2.ErrorPrintLemmas"]
+           "TLVerif.Syntaxtl2.LexerLemmas", "TLVerif.Syntaxtl2.ParserLemmas", "TLVerif.Syntaxtl2.ErrorPrintLemmas",
+           "TLVerif.Syntaxtl2.PositionLemmas"]
 
 
 def check_error(c, line, text, out):
